@@ -222,6 +222,12 @@ def socks_worker(blobs):
                 def create_task(self, coro, *a):
                     return loop.create_task(coro)
 
+                def __getattr__(self, name):
+                    # bookkeeping calls into the connection (registering the forwarder and the like): no-ops here
+                    if name.startswith('__'):
+                        raise AttributeError(name)
+                    return lambda *a, **kw: None
+
             async def coro(session_factory, host, port, orig_host, orig_port):
                 opened.append((host, port))
                 raise asyncssh.ChannelOpenError(2, 'refused')
